@@ -1,9 +1,11 @@
 package checks
 
 import (
+	"context"
 	"encoding/json"
 	"fmt"
 	"reflect"
+	"strings"
 	"sync"
 	"testing"
 	"time"
@@ -17,11 +19,11 @@ import (
 // C11 — sharing keeps one upstream subscription and follows the reference count.
 
 type c11Case struct {
-	Form   string            `json:"form"` // ShareWithConfig | Share | ShareReplay | ShareReplayWithConfig | Connectable
-	Cfg    model.ShareConfig `json:"config"`
-	Reset  bool              `json:"reset_on_disconnect,omitempty"`
-	Ops    []sop             `json:"ops"`
-	Cold   []rt.Ev           `json:"cold_source,omitempty"` // when set the source is a synchronous cold script
+	Form  string            `json:"form"` // ShareWithConfig | Share | ShareReplay | ShareReplayWithConfig | Connectable
+	Cfg   model.ShareConfig `json:"config"`
+	Reset bool              `json:"reset_on_disconnect,omitempty"`
+	Ops   []sop             `json:"ops"`
+	Cold  []rt.Ev           `json:"cold_source,omitempty"` // when set the source is a synchronous cold script
 }
 
 func init() {
@@ -41,8 +43,8 @@ func connectorOf(cfg model.ShareConfig) func() ro.Subject[int] {
 }
 
 func (c c11Case) name() string {
-	if c.Form == "Connectable" {
-		return fmt.Sprintf("Connectable(%s,%d,reset=%v)", c.Cfg.Kind, c.Cfg.Size, c.Reset)
+	if strings.Contains(c.Form, "Connectable") {
+		return fmt.Sprintf("%s(%s,%d,reset=%v)", c.Form, c.Cfg.Kind, c.Cfg.Size, c.Reset)
 	}
 	return fmt.Sprintf("%s(%s,%d,E=%v,C=%v,Z=%v)", c.Form, c.Cfg.Kind, c.Cfg.Size, c.Cfg.ResetOnError, c.Cfg.ResetOnComplete, c.Cfg.ResetOnRefZero)
 }
@@ -94,6 +96,29 @@ func c11Run(t rt.TB, c c11Case) {
 		shared = ro.ShareWithConfig(ro.ShareConfig[int]{Connector: connectorOf(c.Cfg), ResetOnError: c.Cfg.ResetOnError, ResetOnComplete: c.Cfg.ResetOnComplete, ResetOnRefCountZero: c.Cfg.ResetOnRefZero})(source)
 	case "Connectable":
 		conn = ro.ConnectableWithConfig(source, ro.ConnectableConfig[int]{Connector: connectorOf(c.Cfg), ResetOnDisconnect: c.Reset})
+		shared = conn
+		mc = model.NewConnectable(c.Cfg.Kind, c.Cfg.Size, behaviorInitial, c.Reset)
+	case "Connectable()", "NewConnectableObservable", "NewConnectableObservableWithContext", "NewConnectableObservableWithConfig", "NewConnectableObservableWithConfigAndContext":
+		// the other constructors of the same thing: default connector (publish) and
+		// ResetOnDisconnect=true unless a config is given; the subscribe-function forms
+		// delegate to the controllable source
+		body := func(d ro.Observer[int]) ro.Teardown { return source.Subscribe(d).Unsubscribe }
+		bodyCtx := func(cx context.Context, d ro.Observer[int]) ro.Teardown {
+			return source.SubscribeWithContext(cx, d).Unsubscribe
+		}
+		cfg := ro.ConnectableConfig[int]{Connector: connectorOf(c.Cfg), ResetOnDisconnect: c.Reset}
+		switch c.Form {
+		case "Connectable()":
+			conn = ro.Connectable(source)
+		case "NewConnectableObservable":
+			conn = ro.NewConnectableObservable(body)
+		case "NewConnectableObservableWithContext":
+			conn = ro.NewConnectableObservableWithContext(bodyCtx)
+		case "NewConnectableObservableWithConfig":
+			conn = ro.NewConnectableObservableWithConfig(body, cfg)
+		default:
+			conn = ro.NewConnectableObservableWithConfigAndContext(bodyCtx, cfg)
+		}
 		shared = conn
 		mc = model.NewConnectable(c.Cfg.Kind, c.Cfg.Size, behaviorInitial, c.Reset)
 	}
@@ -288,6 +313,13 @@ func c11Configs() []c11Case {
 		out = append(out, c11Case{Form: "Connectable", Cfg: model.ShareConfig{Kind: conn.k, Size: conn.n}, Reset: true})
 		out = append(out, c11Case{Form: "Connectable", Cfg: model.ShareConfig{Kind: conn.k, Size: conn.n}, Reset: false})
 	}
+	for _, form := range []string{"Connectable()", "NewConnectableObservable", "NewConnectableObservableWithContext"} {
+		out = append(out, c11Case{Form: form, Cfg: model.ShareConfig{Kind: "publish"}, Reset: true})
+	}
+	for _, form := range []string{"NewConnectableObservableWithConfig", "NewConnectableObservableWithConfigAndContext"} {
+		out = append(out, c11Case{Form: form, Cfg: model.ShareConfig{Kind: "replay", Size: 2}, Reset: false})
+		out = append(out, c11Case{Form: form, Cfg: model.ShareConfig{Kind: "behavior"}, Reset: true})
+	}
 	out = append(out, c11Case{Form: "Share", Cfg: model.ShareConfig{Kind: "publish", ResetOnError: true, ResetOnComplete: true, ResetOnRefZero: true}})
 	for _, n := range []int{1, 2} {
 		out = append(out, c11Case{Form: "ShareReplay", Cfg: model.ShareConfig{Kind: "replay", Size: n, ResetOnError: true}})
@@ -304,7 +336,7 @@ func TestC11_SequentialEnumerated(t *testing.T) {
 	}
 	idx := 0
 	for _, base := range c11Configs() {
-		enumShareOps(maxLen, 3, base.Form == "Connectable", func(ops []sop) {
+		enumShareOps(maxLen, 3, strings.Contains(base.Form, "Connectable"), func(ops []sop) {
 			idx++
 			if !rt.Mine(idx) || len(ops) == 0 {
 				return
@@ -319,7 +351,7 @@ func TestC11_SequentialEnumerated(t *testing.T) {
 	colds := [][]rt.Ev{{rt.C()}, {rt.N(1), rt.N(2), rt.C()}, {rt.N(1), rt.E(1)}, {rt.N(1), rt.N(2)}}
 	for _, base := range c11Configs() {
 		for _, cold := range colds {
-			enumShareOps(maxLen-2, 3, base.Form == "Connectable", func(ops []sop) {
+			enumShareOps(maxLen-2, 3, strings.Contains(base.Form, "Connectable"), func(ops []sop) {
 				for _, o := range ops {
 					if o.K == 'N' || o.K == 'E' || o.K == 'C' {
 						return // source events come from the cold script here
@@ -367,11 +399,11 @@ func TestC11_SequentialRandom(t *testing.T) {
 					subscribed = append(subscribed[:j], subscribed[j+1:]...)
 				}
 			case 10:
-				if base.Form == "Connectable" {
+				if strings.Contains(base.Form, "Connectable") {
 					ops = append(ops, sop{K: 'K'})
 				}
 			case 11:
-				if base.Form == "Connectable" {
+				if strings.Contains(base.Form, "Connectable") {
 					ops = append(ops, sop{K: 'D'})
 				}
 			}
